@@ -8,6 +8,7 @@ import (
 	"github.com/b2broker/simplefix-go/fix"
 	"github.com/b2broker/simplefix-go/session"
 	"github.com/b2broker/simplefix-go/storages/memory"
+	"github.com/b2broker/simplefix-go/utils"
 	"strconv"
 	"strings"
 	"sync"
@@ -88,6 +89,18 @@ func run(c *vk.Ctx, can *rig.Canary, sc scen, idx int) {
 		cfg.OnSession = func(h *simplefixgo.DefaultHandler, s *session.Session) {
 			inIDs[0] = h.HandleIncoming(simplefixgo.AllMsgTypes, func([]byte) bool { return true })
 			inIDs[1] = h.HandleIncoming(simplefixgo.AllMsgTypes, func([]byte) bool { return true })
+		}
+	}
+	if strings.HasSuffix(sc.answer, "+disconnect-callback-reads-state") {
+		// the application subscribed to the disconnect event when it created the session (before Session.Run), and its
+		// callback looks at the session, as a reconnect policy would
+		sc.answer = strings.TrimSuffix(sc.answer, "+disconnect-callback-reads-state")
+		cfg.OnSession = func(h *simplefixgo.DefaultHandler, s *session.Session) {
+			s.OnChangeState(utils.EventDisconnect, func() bool {
+				_ = s.IsLogged()
+				_ = s.Context().Err()
+				return true
+			})
 		}
 	}
 	f, err := rig.StartFull(cfg)
@@ -462,6 +475,11 @@ func main() {
 				scs = append(scs, scen{role, 2, p, "heartbeat", 0})
 			}
 		}
+	}
+	// the application's own disconnect callback reads the session's state
+	for _, role := range []rig.Role{rig.Acceptor, rig.Initiator} {
+		scs = append(scs, scen{role, 1, "total-silence", "heartbeat+disconnect-callback-reads-state", 0})
+		scs = append(scs, scen{role, 1, "steady-traffic", "heartbeat+disconnect-callback-reads-state", 0})
 	}
 	// the application removes incoming observers of its own after the logon: the peer's traffic still counts
 	for _, role := range []rig.Role{rig.Acceptor, rig.Initiator} {
